@@ -63,7 +63,7 @@ def gen_history(rng, long=False):
         if rng.random() < 0.1:
             t_id = rng.choice(["x", "t-7", "3"])
         turns.append({"turn_id": t_id, "agent": rng.choice(["A", "B"]), "text": f"hello world {i}", "deltas": deltas, "fault": fault, "exc": exc,
-                      "fail_idx": fail_idx, "t4_enabled": rng.random() < 0.8, "cache_enabled": rng.random() < 0.75, "store_kind": rng.choice(["world"] * 8 + ["no-apply", "absent"]),
+                      "fail_idx": fail_idx, "t4_enabled": rng.random() < 0.8, "cache_enabled": rng.random() < 0.75, "store_kind": rng.choice(["world"] * 7 + ["world-falsy", "no-apply", "absent"]),
                       # the wording of the store's report (a call that returns normally has succeeded, whatever it returns)
                       "store_reply": rng.choice([None] * 6 + ["empty", "none", "clamped-only", "int"]),
                       # the host moves the state version between turns (restored an older snapshot, jumped ahead)
@@ -106,8 +106,16 @@ def check_history(case, sess: Session):
             env.cfg["t4"]["cache"]["enabled"] = bool(t.get("cache_enabled", True))
             # store for this turn
             state["active_graphs"] = ["g0"]
-            if t["store_kind"] == "world":
+            if t["store_kind"] in ("world", "world-falsy"):
                 state["store"] = real_store
+                # a store object may be "empty" in the truth-value sense (it defines __len__) and is a store all the same
+                base_cls = getattr(real_store, "_c04_base_cls", type(real_store))
+                real_store._c04_base_cls = base_cls
+                if t["store_kind"] == "world-falsy":
+                    real_store.__class__ = type("FalsyStore", (base_cls,), {"__len__": lambda self_: 0})
+                    sess.count("turns_with_a_falsy_store_object")
+                else:
+                    real_store.__class__ = base_cls
             elif t["store_kind"] == "no-apply":
                 class _ReadOnlyStore:  # a graph store without a batch/apply API
                     def __init__(s_, inner):
